@@ -199,7 +199,6 @@ theorem rule_ks_step (fuel : Nat) (hR : RuleKS ctx fuel) (hC : CoreKS ctx fuel) 
           · split at h
             · simp at h
             · split at h
-              · cases h
               · simp at h
               · split at h
                 · cases h
